@@ -57,6 +57,9 @@ CHECKS = {
  "C15": dict(tech="static analysis: provenance of the fingerprint comparison, removal-idiom recogniser, armed reset path queries, argument provenance for crypto.Sample, reservoir-shape recogniser, error gates on SSA",
    text="Narrow structural clauses decided exactly: previous path matched against the fingerprint of the candidate currently at ps[j]; a match swap-removes that element, assigns it, ends the search; a client left without path passes ResetInterleavedMode and Filter.Reset (unless nil); Sample(k = clients without path, n = remaining candidates, overwrite callback) and Sample itself has the reservoir shape with k capped at n and errors propagated; Sample error and nsps+n==0 (errNoPath) stop the round; worker i gets client i and path i; result = FaultTolerantMidpoint of the collected slice. Distinctness/uniformity as value or probability properties are not decided.",
    ref="DESIGN.md §4 C15"),
+ "C03": dict(tech="static analysis: provenance table (backward slices to tagged sources) for the four timestamps at their four use sites, written-only-after-acceptance must-pass rule for the remembered triple, request-copy and guard recognition, fresh-socket rule on SSA",
+   text="The clause 'all four timestamps belong to one exchange' decided exactly as a provenance table both clients must match: same (t0..t3) at validation, offset, delay and filter; basic arm = this request's kernel/soft tx time, this response's fields, this datagram's kernel/soft rx time; interleaved arm = remembered triple (or the interleaved request's copies) and this response's transmit field; one era reference taken before the send; the triple is written once, only behind ValidateResponseTimestamps==nil, from this exchange's values; interleaved request copies the triple under mode/reference/age guard; own port-0 socket per exchange. The half-RTT bound and histories are not decided.",
+   ref="DESIGN.md §4 C03"),
 }
 NA = {
  "C04": "all clauses are value arithmetic over time.Time/uint32 (truncation direction, era unfolding, order preservation); no structural or finite-domain clause; matching the constants would be a frozen-fragment proxy",
